@@ -308,6 +308,20 @@ def generate(vu, repo_root):
       if len(blines) != len(olines):
         raise Structural("rewrite changed the line count of fn %s" % it["name"])
       for sp in it.get("splices", []):
+        if sp.get("at_end") or sp.get("before_tail"):
+          # position-based anchors (robust against edits of the statements themselves): `at_end` = after the last
+          # statement of a unit-returning body, `before_tail` = before the single-line tail expression
+          close = max(k for k, l in enumerate(blines) if l.strip() == "}")
+          at = close
+          if sp.get("before_tail"):
+            k = close - 1
+            while k > 0 and (not olines[k].strip() or olines[k].strip().startswith("//")):
+              k -= 1
+            at = k
+          ind = "    "
+          blines[at:at] = [ind + x for x in sp["insert"]]
+          olines[at:at] = ["" for x in sp["insert"]]
+          continue
         anchor = sp.get("after") or sp.get("before")
         idx = [k for k, l in enumerate(olines) if l.strip() == anchor]
         if "nth" in sp and len(idx) == sp.get("of", len(idx)) and sp["nth"] < len(idx):
